@@ -845,7 +845,14 @@ func (cc *Conn) handleReq(w *responsewriter.ResponseWriter[*Conn], req *pool.Mes
 
 	// The same message ID can not be handled concurrently
 	// for deduplication to work
-	l := cc.msgIDMutex.Lock(reqMid)
+	l, ok := cc.msgIDMutex.TryLock(reqMid)
+	if !ok {
+		// A copy of a request that is still being handled (the peer retransmits because it has seen no reply yet).
+		// It waits for the reply of the original; the queue behind it must keep moving meanwhile - the handler of
+		// the original may itself be waiting for a message that is queued there.
+		cc.receivedMessageReader.TryToReplaceLoop()
+		l = cc.msgIDMutex.Lock(reqMid)
+	}
 	defer l.Unlock()
 
 	if ok, err := cc.checkResponseCache(req, w); err != nil {
